@@ -113,7 +113,7 @@ def add_obligations(res, tree, rule: str, scope: str = "all") -> int:
             continue
         ax, roots = env_axes(ea)
         conflicts = ax.bind_conflicts()
-        sites = check_sites(ea, ax, conflicts) if scope in ("all", "mask", "generator", "observed") else []
+        sites = check_sites(ea, ax, conflicts) if scope in ("all", "mask", "generator", "observed", "reward") else []
         env = short(ea.cls.qual)
         seen = set()
         obs_deps = None
@@ -125,6 +125,14 @@ def add_obligations(res, tree, rule: str, scope: str = "all") -> int:
             for ts in (ea.reset_ts, ea.step_ts):
                 for leaf in observation_leaves(ea, ts):
                     obs_deps |= {d.id for d in _deps(leaf)}
+        if scope == "reward":
+            # ids of every term the reward of a returned timestep depends on
+            from ..terms import deps as _deps
+            from .common import leaves as _leaves
+            obs_deps = set()
+            for l, _ in _leaves(ea.step_ts):
+                if l.kind == "construct":
+                    obs_deps |= {d.id for d in _deps(ea.vfg.mk_attr(l, "reward"))}
         for s in sites:
             loc, fn, src = site_of(s["term"])
             if obs_deps is not None and s["term"].id not in obs_deps:
